@@ -1,0 +1,39 @@
+//go:build verif
+
+package s2
+
+import "sync/atomic"
+
+// Schedule points and path counters for the runtime monitors in /verif.
+// Compiled only with -tags verif.
+
+var verifSchedFn atomic.Value // func(string)
+var verifCountFn atomic.Value // func(string)
+
+// VerifSetSched installs (or with nil removes) the schedule-point callback.
+func VerifSetSched(f func(point string)) {
+	if f == nil {
+		f = func(string) {}
+	}
+	verifSchedFn.Store(f)
+}
+
+// VerifSetCount installs (or with nil removes) the path-counter callback.
+func VerifSetCount(f func(name string)) {
+	if f == nil {
+		f = func(string) {}
+	}
+	verifCountFn.Store(f)
+}
+
+func verifSched(point string) {
+	if f, ok := verifSchedFn.Load().(func(string)); ok {
+		f(point)
+	}
+}
+
+func verifCount(name string) {
+	if f, ok := verifCountFn.Load().(func(string)); ok {
+		f(name)
+	}
+}
